@@ -71,6 +71,7 @@ type programL struct {
 	Cacheable bool
 	RateDelta int            // >0: recv increments a rate counter by this much
 	Wrap      map[string]int // per subroutine: the syntactic form its actions are written in (wrapStmt)
+	Split     map[string]int // per scope: 0 = one declaration, else where the body is cut into two declarations
 	ReadObj   bool           // vcl_hit reads obj.ttl, obj.age, obj.hits and obj.grace (and assigns nothing)
 	Fresh     string         // "" (vcl_fetch sets beresp.ttl) or who decides freshness at the origin: expires-past | max-age | surrogate | s-maxage
 	RateForm  int            // how: 0 ratecounter_increment, 1 check_rate, 2 check_rates as its second counter (the first one trips), 3 check_rates as its first counter
@@ -114,65 +115,90 @@ func (p *programL) render() string {
 	var b strings.Builder
 	b.WriteString("backend F_origin {\n  .host = \"origin.test\";\n  .port = \"80\";\n  .first_byte_timeout = 5s;\n  .connect_timeout = 1s;\n  .between_bytes_timeout = 2s;\n}\n")
 	b.WriteString("ratecounter rc_a {}\nratecounter rc_b {}\npenaltybox pb_a {}\npenaltybox pb_b {}\n")
+	var later strings.Builder // the second pieces of split subroutines, after all first pieces
 	for _, s := range scopes {
-		fmt.Fprintf(&b, "sub vcl_%s {\n", s)
-		fmt.Fprintf(&b, "  log \"%s:\" req.restarts;\n", s)
+		var chunks []string
+		emit := func(x string) { chunks = append(chunks, x) }
+		emitf := func(format string, a ...any) { chunks = append(chunks, fmt.Sprintf(format, a...)) }
+		emitf("  log \"%s:\" req.restarts;\n", s)
 		switch s {
 		case "recv":
-			b.WriteString("  set req.backend = F_origin;\n")
+			emit("  set req.backend = F_origin;\n")
 			if p.RateDelta > 0 {
-				b.WriteString("  declare local var.n INTEGER;\n")
+				emit("  declare local var.n INTEGER;\n")
 				// every form increments rc_a by RateDelta for this client, once per request
-				b.WriteString("  declare local var.lim BOOL;\n  declare local var.d INTEGER;\n  set var.d = std.atoi(req.http.X-Delta);\n")
+				emit("  declare local var.lim BOOL;\n  declare local var.d INTEGER;\n  set var.d = std.atoi(req.http.X-Delta);\n")
 				switch p.RateForm {
 				case 1:
-					fmt.Fprintf(&b, "  if (req.restarts == 0) {\n    set var.lim = ratelimit.check_rate(req.http.X-Client, rc_a, var.d, 10, 10, pb_b, 2m);\n  }\n")
+					emitf("  if (req.restarts == 0) {\n    set var.lim = ratelimit.check_rate(req.http.X-Client, rc_a, var.d, 10, 10, pb_b, 2m);\n  }\n")
 				case 2:
-					fmt.Fprintf(&b, "  if (req.restarts == 0) {\n    set var.lim = ratelimit.check_rates(req.http.X-Client, rc_b, 100000, 1, 10, rc_a, var.d, 10, 10, pb_b, 2m);\n  }\n")
+					emitf("  if (req.restarts == 0) {\n    set var.lim = ratelimit.check_rates(req.http.X-Client, rc_b, 100000, 1, 10, rc_a, var.d, 10, 10, pb_b, 2m);\n  }\n")
 				case 3:
-					fmt.Fprintf(&b, "  if (req.restarts == 0) {\n    set var.lim = ratelimit.check_rates(req.http.X-Client, rc_a, var.d, 10, 10, rc_b, 1, 60, 70000000, pb_b, 2m);\n  }\n")
+					emitf("  if (req.restarts == 0) {\n    set var.lim = ratelimit.check_rates(req.http.X-Client, rc_a, var.d, 10, 10, rc_b, 1, 60, 70000000, pb_b, 2m);\n  }\n")
 				default:
-					fmt.Fprintf(&b, "  if (req.restarts == 0) {\n    set var.n = ratelimit.ratecounter_increment(rc_a, req.http.X-Client, var.d);\n  }\n")
+					emitf("  if (req.restarts == 0) {\n    set var.n = ratelimit.ratecounter_increment(rc_a, req.http.X-Client, var.d);\n  }\n")
 				}
-				b.WriteString("  set req.http.X-Bucket = ratecounter.rc_a.bucket.60s;\n")
+				emit("  set req.http.X-Bucket = ratecounter.rc_a.bucket.60s;\n")
 			}
 			if p.Penalty {
 				// membership is only evaluated when the request asks for it, so that
 				// histories exist in which an entry expires unobserved
-				b.WriteString("  if (req.http.X-Check) {\n    if (ratelimit.penaltybox_has(pb_a, req.http.X-Client)) {\n      set req.http.X-Boxed = \"1\";\n    } else {\n      set req.http.X-Boxed = \"0\";\n    }\n  }\n")
-				b.WriteString("  if (req.http.X-Punish && req.restarts == 0) {\n    ratelimit.penaltybox_add(pb_a, req.http.X-Client, 2m);\n  }\n")
+				emit("  if (req.http.X-Check) {\n    if (ratelimit.penaltybox_has(pb_a, req.http.X-Client)) {\n      set req.http.X-Boxed = \"1\";\n    } else {\n      set req.http.X-Boxed = \"0\";\n    }\n  }\n")
+				emit("  if (req.http.X-Punish && req.restarts == 0) {\n    ratelimit.penaltybox_add(pb_a, req.http.X-Client, 2m);\n  }\n")
 			}
 		case "hit":
 			if p.ReadObj {
 				// reads only: looking at the object must not change it
-				b.WriteString("  set req.http.X-Obj-TTL = obj.ttl;\n  set req.http.X-Obj-Age = obj.age;\n  set req.http.X-Obj-Hits = obj.hits;\n  set req.http.X-Obj-Grace = obj.grace;\n")
+				emit("  set req.http.X-Obj-TTL = obj.ttl;\n  set req.http.X-Obj-Age = obj.age;\n  set req.http.X-Obj-Hits = obj.hits;\n  set req.http.X-Obj-Grace = obj.grace;\n")
 			}
 		case "hash":
 			if p.HashVary {
-				b.WriteString("  set req.hash += req.http.X-V;\n")
+				emit("  set req.hash += req.http.X-V;\n")
 			}
 		case "fetch":
 			if p.Fresh != "" {
 				// the origin's headers decide
 			} else if p.Cacheable {
-				fmt.Fprintf(&b, "  set beresp.cacheable = true;\n  set beresp.ttl = %ds;\n", int(p.TTL.Seconds()))
+				emitf("  set beresp.cacheable = true;\n  set beresp.ttl = %ds;\n", int(p.TTL.Seconds()))
 			} else {
-				b.WriteString("  set beresp.cacheable = false;\n")
+				emit("  set beresp.cacheable = false;\n")
 			}
 		case "deliver":
-			b.WriteString("  set resp.http.X-Marker = req.http.X-Marker;\n  set resp.http.X-Bucket = req.http.X-Bucket;\n  set resp.http.X-Boxed = req.http.X-Boxed;\n")
+			emit("  set resp.http.X-Marker = req.http.X-Marker;\n  set resp.http.X-Bucket = req.http.X-Bucket;\n  set resp.http.X-Boxed = req.http.X-Boxed;\n")
 		}
 		sb := p.B[s]
 		if sb.K > 0 {
 			if st := stmtFor(sb.First); st != "" {
-				fmt.Fprintf(&b, "  if (req.restarts < %d) {\n    %s\n  }\n", sb.K, wrapStmt(p.Wrap[s], st))
+				emitf("  if (req.restarts < %d) {\n    %s\n  }\n", sb.K, wrapStmt(p.Wrap[s], st))
 			}
 		}
 		if st := stmtFor(sb.Then); st != "" {
-			fmt.Fprintf(&b, "  %s\n", wrapStmt(p.Wrap[s], st))
+			emitf("  %s\n", wrapStmt(p.Wrap[s], st))
+		}
+		// A lifecycle subroutine may be declared in pieces, which are concatenated
+		// in declaration order: the program is the same, and so is every request's
+		// path — also the second and third request's.
+		k := 0
+		if sp := p.Split[s]; sp > 0 && len(chunks) >= 2 {
+			k = 1 + (sp-1)%(len(chunks)-1)
+		}
+		fmt.Fprintf(&b, "sub vcl_%s {\n", s)
+		for i, ch := range chunks {
+			if k > 0 && i == k {
+				fmt.Fprintf(&later, "sub vcl_%s {\n", s)
+			}
+			if k > 0 && i >= k {
+				later.WriteString(ch)
+			} else {
+				b.WriteString(ch)
+			}
+		}
+		if k > 0 {
+			later.WriteString("}\n")
 		}
 		b.WriteString("}\n")
 	}
+	b.WriteString(later.String())
 	return b.String()
 }
 
@@ -454,6 +480,14 @@ func drawProgramL(c *worker.Ctx) *programL {
 		p.Cacheable = true
 	}
 	p.ReadObj = c.T.Bool(1, 3)
+	p.Split = map[string]int{}
+	if c.T.Bool(1, 3) {
+		for _, sc := range scopes {
+			if c.T.Bool(1, 2) {
+				p.Split[sc] = 1 + c.T.Draw(8)
+			}
+		}
+	}
 	for _, s := range scopes {
 		pick := func() string {
 			la := legalActions[s]
